@@ -8,7 +8,7 @@ From Anthem Require Model.AspParse Model.AspPrint Model.FolLex Model.FolParse Mo
   Model.TauStar Model.Mu Model.CliMu Model.Gamma Model.Completion Model.Apply Model.SimplIntuit
   Model.SimplClassic Model.Strategy Model.StrategyCls Model.Tightness Model.Regularity.
 From Anthem Require Import Model.Cli.
-From Anthem Require Model.ClsTerm Proofs.FuelMono.
+From Anthem Require Model.ClsTerm Proofs.FuelMono Proofs.ParserImage Proofs.ParserImagePipeline Proofs.FolImage.
 From Anthem Require Proofs.StrategyClsOk Proofs.SimplFull Proofs.TightnessOk Proofs.RegularOk.
 From Anthem Require Properties.C01 Properties.C07 Properties.C07full Properties.C11tight Properties.C11reg
   Properties.C14 Properties.C15 Properties.C15text Properties.C18.
@@ -285,6 +285,79 @@ Proof.
   - apply (run_cli_fuel_mono _ _ _ _ E); [discriminate|exact Hle].
   - pose proof (cli_simplify_out_of_fuel_only_parser _ _ _ _ (le_n _) E) as Hp.
     cbn [run_cli_fuel]. unfold run_simplify_fuel, theory_from_file. rewrite Hp. reflexivity.
+Qed.
+
+(* ------------------------------------------------------------------ simplify: no panic (audit A8 b) *)
+(* the classic rewrites panic only outside the parser image; what `simplify` hands them IS the
+   parser's output, so a panic of `anthem simplify` can only be the parser's own (F3a) *)
+Lemma cli_portfolio_classic_opt_safe : Forall2 ParserImage.safe portfolio_classic_opt ClsTerm.portfolio_classic.
+Proof.
+  unfold portfolio_classic_opt, ClsTerm.portfolio_classic.
+  apply Forall2_app; [apply ParserImage.lift_safe; [reflexivity|exact ParserImage.INTUITIONISTIC_pi]|].
+  apply Forall2_app; [apply ParserImage.lift_safe; [reflexivity|constructor]|exact ParserImage.CLASSIC_opt_safe].
+Qed.
+
+Lemma simplify_formula_fuel_no_panic fuel portfolio strategy F :
+  ParserImage.parser_image F -> simplify_formula_fuel fuel portfolio strategy F <> Stop Panic.
+Proof.
+  intros HF. destruct portfolio.
+  - unfold simplify_formula_fuel.
+    pose proof (ParserImage.run_strategy_opt_no_panic fuel _ _ (strategy_cls strategy) F
+                  cli_portfolio_classic_opt_safe HF) as H.
+    destruct (StrategyCls.run_strategy_opt fuel portfolio_classic_opt (strategy_cls strategy) F); congruence.
+  - destruct (simplify_formula_ht_total fuel strategy F) as [G ->]. discriminate.
+  - destruct (simplify_formula_int_total fuel strategy F) as [G ->]. discriminate.
+Qed.
+Lemma simplify_theory_fuel_no_panic fuel portfolio strategy t :
+  (forall F, In F t -> ParserImage.parser_image F) -> simplify_theory_fuel fuel portfolio strategy t <> Stop Panic.
+Proof.
+  induction t as [|F t IH]; cbn [simplify_theory_fuel]; intros H; [discriminate|].
+  pose proof (simplify_formula_fuel_no_panic fuel portfolio strategy F (H F (or_introl eq_refl))) as HF.
+  destruct (simplify_formula_fuel fuel portfolio strategy F) as [G|r0]; [|congruence].
+  specialize (IH (fun x Hx => H x (or_intror Hx))).
+  destruct (simplify_theory_fuel fuel portfolio strategy t) as [Gs|r1]; [discriminate|congruence].
+Qed.
+
+Theorem cli_simplify_panic_only_parser fuel portfolio strategy s :
+  run_cli_fuel fuel (Simplify portfolio strategy) s = Panic ->
+  FolParse.parse_theory_str s = FolParse.PR_panic.
+Proof.
+  cbn [run_cli_fuel]. unfold run_simplify_fuel, theory_from_file.
+  destruct (FolParse.parse_theory_str s) as [t| | |] eqn:Et; cbn [of_presult bind]; try discriminate; [|reflexivity].
+  intros E. exfalso.
+  pose proof (simplify_theory_fuel_no_panic fuel portfolio strategy t
+                (ParserImagePipeline.wf_theory_pi t (FolImage.image_theory_str s t Et))) as H.
+  destruct (simplify_theory_fuel fuel portfolio strategy t) as [t'|r]; cbn [bind] in E; [discriminate|congruence].
+Qed.
+
+(* all three portfolios, every fuel from the bound on: the outcome of `simplify` is decided by the
+   parser alone (the classic-portfolio counterpart of cli_simplify_int_ht_terminates) *)
+Theorem cli_simplify_decided_by_parser m portfolio strategy s : cli_fuel_bound s <= m ->
+  match run_cli_fuel m (Simplify portfolio strategy) s with
+  | Stdout _ => exists t, FolParse.parse_theory_str s = FolParse.PR_ok t
+  | Error => FolParse.parse_theory_str s = FolParse.PR_err
+  | Panic => FolParse.parse_theory_str s = FolParse.PR_panic
+  | OutOfFuel => FolParse.parse_theory_str s = FolParse.PR_oof
+  end.
+Proof.
+  intros Hm. destruct (run_cli_fuel m (Simplify portfolio strategy) s) as [out| | |] eqn:E.
+  - destruct (cli_simplify_sound m portfolio strategy s out E) as [t [_ [Et _]]]. eauto.
+  - revert E. cbn [run_cli_fuel]. unfold run_simplify_fuel, theory_from_file.
+    destruct (FolParse.parse_theory_str s) as [t| | |]; cbn [of_presult bind]; try discriminate; [|reflexivity].
+    intros E. exfalso.
+    assert (Hn : forall t r, simplify_theory_fuel m portfolio strategy t = Stop r -> r = Panic \/ r = OutOfFuel).
+    { clear. induction t as [|F t IH]; cbn [simplify_theory_fuel]; intros r; [discriminate|].
+      destruct (simplify_formula_fuel m portfolio strategy F) as [G|r0] eqn:EF.
+      - destruct (simplify_theory_fuel m portfolio strategy t) as [Gs|r1]; [discriminate|].
+        intros [= <-]. apply IH; reflexivity.
+      - intros [= <-]. unfold simplify_formula_fuel in EF. destruct portfolio.
+        + destruct (StrategyCls.run_strategy_opt _ _ _ F); inversion EF; auto.
+        + destruct (Strategy.run_strategy _ _ _ F); inversion EF; auto.
+        + destruct (Strategy.run_strategy _ _ _ F); inversion EF; auto. }
+    destruct (simplify_theory_fuel m portfolio strategy t) as [t'|r] eqn:ES; cbn [bind] in E; [discriminate|].
+    destruct (Hn t r ES) as [Hr|Hr]; rewrite Hr in E; discriminate E.
+  - exact (cli_simplify_panic_only_parser m portfolio strategy s E).
+  - exact (cli_simplify_out_of_fuel_only_parser m portfolio strategy s Hm E).
 Qed.
 
 (* ------------------------------------------------------------------ parse --as program *)
